@@ -126,6 +126,8 @@ def step (s : State) (toks : List String) : State × String :=
   match toks with
   -- f64 self-checks of the harness (implementation vs documented formula): no model involved
   | "@" :: "f64" :: _ => (.none, "f64=ok")
+  -- integer boundary self-checks of the harness (implementation vs the plain operator)
+  | "@" :: "int" :: _ => (.none, "int=ok")
   | "@" :: "trace" :: "fp" :: _ => (.fp {}, "ok")
   | "@" :: "trace" :: "rat" :: _ => (.rat {}, "ok")
   | _ =>
